@@ -20,6 +20,9 @@ try:
             continue
         if only and not any(name.startswith(o) for o in only):
             continue
+        if meta.get('obsolete'):
+            print((name, '-', 'skipped: obsolete (see meta.json)', '-'), flush=True)
+            continue
         if sh(f'git -C /repo apply {d}/patch.diff').returncode != 0:
             rows.append((name, '-', 'PATCH-DOES-NOT-APPLY', '-'))
             print(rows[-1], flush=True)
